@@ -36,6 +36,11 @@ MATS = ["NeoHooke", "NeoHookeCompressible", "Yeoh(tensortrax)", "MooneyRivlin(ja
 
 def random_state(rng, field, grad=0.2):
     field[0].values[:] = gen.random_displacement(rng, field.region.mesh, grad=grad)
+    import zlib
+    if zlib.crc32(np.ascontiguousarray(field[0].values).tobytes()) % 4 == 0:
+        # the same values stored column-wise (what (R @ X.T).T or np.array([ux, uy, uz]).T produce): the memory layout of a
+        # value array carries no meaning (decided by the values themselves, the random stream is not touched)
+        field[0].values = np.asfortranarray(field[0].values)
     if len(field.fields) > 1:
         field[1].values[:] = 0.3 * rng.standard_normal(field[1].values.shape)
     if len(field.fields) > 2:
